@@ -286,3 +286,5 @@ func DefaultConf(instance string, native bool) (config.Config, config.LMDB) {
 	c.LMDBs[DBName] = lc
 	return c, lc
 }
+
+func healthzDeregister(name string) { healthz.Deregister(name) }
